@@ -1,1 +1,6 @@
 import TvCore.Model.Link
+import TvCore.Model.Types
+import TvCore.Model.Ports
+import TvCore.Model.World
+import TvCore.Model.Ops
+import TvCore.Props.C03
